@@ -141,6 +141,8 @@ type Tr struct {
 	topFrame      *frame
 	addrSeen      map[string]bool
 	pure          int
+	inCallback    int
+	closureBindings []Val
 	callTexts     map[token.Pos]string
 }
 
@@ -745,7 +747,7 @@ func (tr *Tr) enterBlock(fr *frame, b *ssa.BasicBlock) {
 	es := tr.inEdges(fr, b, false)
 	if len(es) == 0 {
 		fr.curReach = "false"
-		fr.heap = &Heap{base: newEpoch(), m: map[string]string{}}
+		fr.heap = fr.heap.havocAll()
 		return
 	}
 	var conds []string
@@ -787,9 +789,10 @@ func (tr *Tr) mergeHeaps(fr *frame, es []inEdge) *Heap {
 			keys[k] = true
 		}
 	}
-	out := &Heap{base: first.base, m: map[string]string{}}
+	out := &Heap{base: first.base, ghostBase: first.ghostBase, m: map[string]string{}}
 	if !sameBase {
 		out.base = newEpoch()
+		out.ghostBase = 0
 		for _, k := range tr.C.sortedHeapKeys() {
 			keys[k] = true
 		}
@@ -1063,7 +1066,7 @@ func (tr *Tr) loopHeader(fr *frame, li *loopInfo) {
 	mod, all := tr.loopModSet(fr, li)
 	if all {
 		oldA := tr.C.hget(fr.heap, "ALLOC")
-		fr.heap = &Heap{base: newEpoch(), m: map[string]string{}}
+		fr.heap = fr.heap.havocAll()
 		newA := tr.declareConst("Int", "A_loop")
 		tr.assume("true", app(">=", newA, oldA))
 		fr.heap.m["ALLOC"] = newA
